@@ -843,9 +843,20 @@ def _mfl_worker(job):
     best = {}
     for fid, clause, size, detail, case in res:
         k = (fid, clause)
-        if k not in best or (size, detail) < (best[k][0], best[k][1]):
+        if k not in best or _smaller(size, case, detail, best[k]):
             best[k] = (size, detail, case)
     return n, nontrivial, best
+
+
+def _smaller(size, case, detail, kept):
+    """order of failing cases: by size, then by the case itself (not by the observed detail, which may
+    print sets in an order that changes from run to run)"""
+    import json
+
+    ksize, kdetail, kcase = kept
+    a = (size, json.dumps(case, sort_keys=True))
+    b = (ksize, json.dumps(kcase, sort_keys=True))
+    return a < b or (a == b and detail < kdetail)
 
 
 def _chunks(it, size):
@@ -875,7 +886,7 @@ def _merge_fails(results, replay_fn):
         cases += n
         nontrivial += nt
         for k, (size, detail, case) in b.items():
-            if k not in best or (size, detail) < (best[k][0], best[k][1]):
+            if k not in best or _smaller(size, case, detail, best[k]):
                 best[k] = (size, detail, case)
     fails = []
     for (fid, clause) in sorted(best):
@@ -1663,7 +1674,7 @@ def _enum_worker(items):
         for fid, clause, detail in _enum_check(case):
             k = (fid, clause)
             size = _case_size(case)
-            if k not in best or (size, detail) < (best[k][0], best[k][1]):
+            if k not in best or _smaller(size, case, detail, best[k]):
                 best[k] = (size, detail, case)
     return n, n, best
 
@@ -2372,7 +2383,7 @@ def _wf_worker(items):
             size = (case.get('n', 0) + case.get('a', 0) + case.get('b', 0),
                     len(case.get('edges', [])) + len(case.get('ea', [])) + len(case.get('eb', [])),
                     len(repr(case)))
-            if k not in best or (size, detail) < (best[k][0], best[k][1]):
+            if k not in best or _smaller(size, case, detail, best[k]):
                 best[k] = (size, detail, case)
     return n, n, best
 
